@@ -28,6 +28,7 @@ type pnftGen struct {
 
 var pnftDenomIds = []string{"a", "ab", "b", "a/b", "A"}
 var pnftOddIds = []string{"a\x00b", "", "a\x00", "\x00"}
+var pnftK3Ids = []string{"\xff", "\xfe", "a\xff"}
 var pnftTokenIds = []string{"x", "xy", "y", "c", "b\x00c"}
 
 func (g *pnftGen) add(format string, a ...any) { g.lines = append(g.lines, fmt.Sprintf(format, a...)) }
@@ -36,6 +37,9 @@ func (g *pnftGen) addr(i int) string           { return g.accts[i].Addr.String()
 func (g *pnftGen) denomID() string {
 	if g.r.Chance(93) {
 		return pick(g.r, pnftDenomIds)
+	}
+	if genK3 && g.r.Chance(40) {
+		return pick(g.r, pnftK3Ids)
 	}
 	return pick(g.r, pnftOddIds)
 }
@@ -49,6 +53,9 @@ func (g *pnftGen) tokenID() string {
 func (g *pnftGen) opt(vals ...string) string {
 	if g.r.Chance(40) {
 		return ""
+	}
+	if g.r.Chance(4) && genK3 {
+		return pick(g.r, []string{"\xff", "n\xc3", "\xed\xa0\x80"}) // not UTF-8 (K3)
 	}
 	return pick(g.r, vals)
 }
